@@ -92,6 +92,7 @@ def explore(sc, base_module, consts, invariants, tier, view="View", emit="EmitBe
         mc = core.tlc(sc, "MCrun", ct, extra_modules={"MCrun.tla": mod}, workers=workers, seed_=core.seed(), timeout=to)
         mc["violated"] = bad
     hists = list(core.tagged_lines(mc["outfile"], "VF-BEH")) if emit else []
+    core.log("model explored: %d states, %d behaviours emitted, %.1fs" % (mc["distinct"], len(hists), mc["wall"]))
     return mc, hists, cex
 
 
@@ -115,6 +116,7 @@ def run_harness(sc, vfh, mode, behs, chunk=40, nworkers=None, timeout=3600, extr
     for (rc, err), c in zip(res, cmds):
         if rc != 0:
             raise core.MachineryError("harness worker failed rc=%s: %s\n%s" % (rc, " ".join(c), err))
+    core.log("harness done: %d jobs" % len(jobs))
     allp = os.path.join(wd, "all.ndjson")
     nlines = 0
     with open(allp, "w") as out:
@@ -135,9 +137,36 @@ def judge(sc, module, consts, trace_path, nlines, heap="12g", timeout=3600):
     if len(out) != 1:
         raise core.MachineryError("judge produced no result line:\n" + r["tail"][-3000:])
     res = out[0]
+    core.log("judge %s: %d lines in %.1fs" % (module, nlines, r["wall"]))
     if res["consumed"] != nlines:
         raise core.MachineryError("judge consumed %d of %d trace lines" % (res["consumed"], nlines))
     return res
+
+
+def judge_parallel(sc, module, consts, trace_path, nlines, parts=8, heap="6g", timeout=3600):
+    """Judge a trace whose lines are independent of each other with several TLC processes at once."""
+    import concurrent.futures
+    if nlines < 400:
+        return judge(sc, module, consts, trace_path, nlines, heap=heap, timeout=timeout)
+    parts = max(1, min(parts, core.NCPU // 2))
+    with open(trace_path) as f:
+        lines = f.readlines()
+    per = (len(lines) + parts - 1) // parts
+    chunks = []
+    for i in range(0, len(lines), per):
+        cp = trace_path + ".part%d" % (i // per)
+        with open(cp, "w") as f:
+            f.writelines(lines[i:i + per])
+        chunks.append((cp, len(lines[i:i + per])))
+    # allocate the scratch TLC directories up front (Scratch is not thread-safe)
+    with concurrent.futures.ThreadPoolExecutor(max_workers=len(chunks)) as ex:
+        futs = [ex.submit(judge, sc, module, consts, cp, n, heap, timeout) for cp, n in chunks]
+        results = [f.result() for f in futs]
+    out = dict(consumed=sum(r["consumed"] for r in results), viol=[], div=[])
+    for r in results:
+        out["viol"] += r["viol"]
+        out["div"] += r.get("div", [])
+    return out
 
 
 def trace_lines(trace_path, tid):
